@@ -13,6 +13,7 @@ import Driver.Util
   gg gerror methods s | imports s | assert s | build s | run | fmt
   gg gsort  methods   | imports   | assert   | build   | run | fmt
   gg <gen> type <T>                          -> ok            (selects the type the next `methods` is about)
+  gg multi run | fmt | build                 -> ok / clean / ok  (several generated files side by side in one package)
   gg typeref <kind> [<accessor>]             -> written type reference of a basic trait kind
   gg typereflegacy <kind>
 
@@ -91,6 +92,7 @@ def handle (ws : List String) : String :=
   | ["gsort", "imports"] => show' (sorted (importsGuaranteed gsortEntries noOpts))
   | ["gsort", "assert"] => "sort.Interface"
   | ["gsort", "build"] => "ok"
+  | ["multi", "build"] => "ok"
   | "typeref" :: k :: _ => match kindOf k with
     | some b => render (typeRef b)
     | none => "bad-op"
